@@ -80,8 +80,15 @@ void _ZN19QXmppOutgoingClient13errorOccurredERK7QStringRKSt7variantIJN15QAbstrac
 
 void _ZN19QXmppOutgoingClient12disconnectedERKN5QXmpp7Private10SessionEndE(char *self, char *s) { c04_sig_other++; }
 void _ZN19QXmppOutgoingClient10iqReceivedERK7QXmppIq(char *self, char *iq) { c04_sig_other++; }
-/* elementReceived(element, handled&): nobody is connected (extension handlers of QXmppClient are outside), `handled` stays false */
-void _ZN19QXmppOutgoingClient15elementReceivedERK11QDomElementRb(char *self, char *el, char *handled) { c04_sig_other++; }
+/* elementReceived(element, handled&): the hand-over to the extensions of QXmppClient (version, ping, disco, time ... responders), which are
+   outside the encoded program and ANSWER requests handed to them. Assume-guarantee at this interface: a jabber:client element must not be
+   handed over while TLS is required and the link is not encrypted (defect 24: a version request received before STARTTLS was answered in
+   clear). Nobody is connected here, `handled` stays false. */
+static int c04_is_client_ns(QAD *s) { static const char lit[] = "jabber:client"; if (s->f1 != 13) return 0; const uint16_t *c = qs_chars(s);
+  for (uint32_t i = 0; i < 13; i++) if (c[i] != (uint16_t)lit[i]) return 0; return 1; }
+void _ZN19QXmppOutgoingClient15elementReceivedERK11QDomElementRb(char *self, char *el, char *handled) { c04_sig_other++;
+  struct dnode *n = DN(el);
+  VP_ASSERT(!(c04_tls_required && !c04_encrypted && n != 0 && c04_is_client_ns(n->ns)), "C04 a stanza received over a link that is not encrypted is handed to the client's extensions (which answer requests) although TLS is required"); }
 
 /* ---- Qt value classes that are only default-constructed / copied / destroyed as members (content irrelevant here) -------------------- */
 void _ZN13QNetworkProxyC1Ev(char *self) { *(char**)self = 0; }
